@@ -1923,9 +1923,9 @@ def _is_read_after_loop(names: Collection[str], loop: ast.AST, root: ast.AST) ->
 
 
 def _is_in_class_body(loop: ast.AST, root: ast.AST) -> bool:
-    """Is loop a statement of a class body (not of a method)?
+    """Is loop (or another statement) a statement of a class body (not of a method)?
 
-    Such a loop cannot become a comprehension: its variables are class attributes afterwards, and
+    A loop there cannot become a comprehension: its variables are class attributes afterwards, and
     a comprehension is a function scope of its own, where the names that the class body binds are
     not visible (only the iterable of the first for clause is evaluated in the class body)."""
 
@@ -2881,8 +2881,22 @@ def implicit_defaultdict(source: str) -> str:
             yield before, after, transaction
 
 
+def _class_attribute_values(root: ast.AST) -> Collection[ast.AST]:
+    """Values that statements of class bodies assign to class attributes.
+
+    A lambda there is a method: looked up on an instance it is called with the instance as first
+    argument. A builtin function or a class in its place would not be."""
+    return {
+        node.value
+        for node in core.walk(root, (ast.Assign, ast.AnnAssign))
+        if node.value is not None and _is_in_class_body(node, root)
+    }
+
+
 @processing.fix
 def _replace_lambda_with_literal(source: str) -> str:
+    root = core.parse(source)
+    class_attribute_values = _class_attribute_values(root)
     for find, replace in (
         ("lambda: []", "list"),
         ("lambda: {}", "dict"),
@@ -2896,8 +2910,11 @@ def _replace_lambda_with_literal(source: str) -> str:
         ("lambda: {{func}}()", "{{func}}"),
     ):
         for range_, replacement, template_match in processing.find_replace(
-            source, find, replace, yield_match=True
+            source, find, replace, yield_match=True, root=root
         ):
+            if template_match[0] in class_attribute_values:
+                continue
+
             # `lambda: f()()` evaluates f() at every call, `f()` once and at once
             func = getattr(template_match, "func", None)
             if func is None or not core.has_side_effect(func):
@@ -2914,10 +2931,15 @@ def _replace_lambda_with_function(source: str) -> str:
             keywords=core.Wildcard("call_keywords"),
     ),)
     replace = "{{func}}"
+    root = core.parse(source)
+    class_attribute_values = _class_attribute_values(root)
     for replacement_range, replacement, template_match in processing.find_replace(
-        source, find, replace, yield_match=True
+        source, find, replace, yield_match=True, root=root
     ):
         _, call_args, call_keywords, _, sign_args = template_match
+        if template_match.root in class_attribute_values:
+            continue
+
         if sign_args.kw_defaults or sign_args.defaults:
             continue  # called with fewer arguments, the lambda passes its defaults on
 
